@@ -3,7 +3,7 @@
 From Coq Require Import ZArith List String.
 From AGH Require Import Base.Run Model.QLogFile Model.QLogCodec Model.QLogBytes
   Proofs.QLogFile Proofs.QLogFileAbsent Proofs.QLogHistory Proofs.QLogCodec Proofs.QLogCodecLoc Proofs.QLogBytes Proofs.QLogStamp
-  Model.QLogDisk Proofs.QLogDisk.
+  Model.QLog Model.QLogDisk Proofs.QLogDisk.
 Import ListNotations.
 Local Open Scope Z_scope.
 
@@ -504,3 +504,49 @@ Theorem C20_stamp_field_bounded_prefix_refuted :
   b_seek_ts (fun v => 0) 16384 (flat [line]) 1709294400500000000 = EmptyStamp.
 Proof. exact bounded_prefix_refuted. Qed.
 Print Assumptions C20_stamp_field_bounded_prefix_refuted.
+
+(** * Round 8: seekRecord and the wall clock
+
+    qLogReader.seekRecord (search.go) = seekTS, then one ReadNext to step
+    over the found record unless the reader fell back.  [seek_record_st] is
+    Model/QLog.v's [seek_record] with the reader kept on failure. *)
+Theorem C20_seek_record_st_is_seek_record : forall me bf older (r : reader),
+  seek_record me bf older r =
+    (if fst (seek_record_st me bf older r) =? 0 then Some (snd (seek_record_st me bf older r)) else None).
+Proof. exact seek_record_st_eq. Qed.
+Print Assumptions C20_seek_record_st_is_seek_record.
+
+(** seekRecord to the stamp of a stored record succeeds and the reads that
+    follow return the records just older than it, then the older files.  No
+    premise relates the stamps to a clock: they may all lie in the future. *)
+Theorem C20_seek_record_present : forall me buf (fs : list qfile) i f t l ts,
+  0 < me <= buf -> Forall (file_ok me) fs ->
+  nth_error fs i = Some f -> sorted_ts f -> nth_error f t = Some (l, ts) ->
+  (forall j f', (i < j)%nat -> nth_error fs j = Some f' -> all_newer ts f') ->
+  exists r'', seek_record_st me buf (Some ts) (new_reader fs) = (0, r'') /\
+    forall fuel, (length (tagged i (firstn t f) ++ all_rev_upto i fs) < fuel)%nat ->
+      reader_read_all me buf fuel r'' = tagged i (firstn t f) ++ all_rev_upto i fs.
+Proof. exact seek_record_present. Qed.
+Print Assumptions C20_seek_record_present.
+
+(** The wall clock is no input of seekRecord.  True by construction of the
+    model; the claim about the CODE is the correspondence and the run monitor
+    on histories over files whose stamps lie after the wall clock. *)
+Theorem C20_seek_record_ignores_clock : forall now1 now2 me bf older (r : reader),
+  seek_record_at now1 me bf older r = seek_record_at now2 me bf older r.
+Proof. exact seek_record_ignores_clock. Qed.
+Print Assumptions C20_seek_record_ignores_clock.
+
+(** A seekRecord that skips the look-up for a cursor later than the clock
+    (wave-8 change P) is refuted: records stamped now+1h, +2h, +3h, cursor the
+    second: the code goes on with the first, the variant with the third. *)
+Theorem C20_seek_record_clock_refuted :
+  Forall (file_ok 16384) ex_future /\
+  (let (c, r) := seek_record_st 16384 1638400 (Some (ex_now + 2 * hour)) (new_reader ex_future) in
+   (c, fst (reader_read_next 16384 1638400 r))) = (0, Some (0, 0, 60)) /\
+  (let (c, r) := seek_record_clock ex_now 16384 1638400 (Some (ex_now + 2 * hour)) (new_reader ex_future) in
+   (c, fst (reader_read_next 16384 1638400 r))) = (0, Some (0, 132, 80)) /\
+  seek_record_clock (ex_now + 4 * hour) 16384 1638400 (Some (ex_now + 2 * hour)) (new_reader ex_future)
+    = seek_record_st 16384 1638400 (Some (ex_now + 2 * hour)) (new_reader ex_future).
+Proof. exact seek_record_clock_refuted. Qed.
+Print Assumptions C20_seek_record_clock_refuted.
